@@ -346,6 +346,74 @@ def advance_nontrivial(case):
 
 
 # ------------------------------------------------------------------------------------------
+# source tie: the Python text of ctc_prefix_search_advance, translated to MiniPy (harness/py2coq) and interpreted in
+# Coq (PV.C05.SrcRun.src_advance_check; torch calls = PV.MiniTorch.OpsC05, torch.topk = an oracle answering the choice
+# observed from the outputs, which Model.topk_ok must accept), against the implementation's output on the step cases
+# ------------------------------------------------------------------------------------------
+IMPORTS_SRC = IMPORTS + "From PV Require C05.SrcRun.\n"
+SRC_THEOREMS = ["c05_source_advance_is_model", "c05_source_advance_is_model_stable", "c05_source_advance_refines_model",
+                "c05_source_advance_check_is_check", "c05_source_advance_is_tensor_program",
+                "c05_source_advance_raises_width"]
+
+
+def _adv_wf(c):
+    """the hypotheses of the c05_source_advance_* theorems (ProofsModel.wf, 1 <= V, 1 <= width)"""
+    Kp = len(c["nb"])
+    return (c["V"] >= 1 and c["width"] >= 1 and Kp >= 1 and all(len(c[k]) == Kp for k in ("b", "y", "last", "lens", "isp"))
+            and all(len(col) == c["t"] for col in c["y"]) and all(0 <= x <= c["t"] for x in c["lens"]))
+
+
+def source_tie(chk, cases, outs):
+    """run the translated source inside Coq (vm_compute) on the step cases of this run, same literals as the model term:
+    validates translator + MiniPy.Interp + ext05 + MiniTorch.OpsC05 against torch; independent of whether the tie lemmas
+    still compile"""
+    import time
+    from vlib import CoqError
+    idx, sterms = [], []
+    for i, (c, out) in enumerate(zip(cases, outs)):
+        if c["kind"] != "advance":
+            continue
+        t = advance_term(c, out)
+        if t == "false":
+            continue
+        idx.append(i)
+        sterms.append("SrcRun." + t.replace("check_advance", "src_advance_check", 1))
+    if not idx:
+        chk.extra["source_tie_run"] = {"cases": 0, "disagreements": 0}
+        return
+    stable = ["SrcRun.choice_is_stable %s %s %s %s %s" % (cn(cases[i]["V"]), cn(cases[i]["width"]), _frame_term(cases[i]),
+                                                         _beam_term(cases[i]), cln(outs[i]["choice"])) for i in idx]
+    t0 = time.time()
+    try:
+        res = coq_eval_bools(chk.workdir, IMPORTS_SRC, sterms + stable, shard=90, tag="srcadv")
+    except CoqError as e:
+        chk.extra["source_tie_run"] = "not evaluated: " + str(e)[-400:]
+        return
+    res, stab = res[:len(idx)], res[len(idx):]
+    bad = [idx[j] for j, ok in enumerate(res) if not ok]
+    chk.extra["source_tie_run"] = {
+        "cases": len(idx), "disagreements": len(bad), "wall_s": round(time.time() - t0, 1),
+        "well_formed": sum(1 for i in idx if _adv_wf(cases[i])),
+        "observed_choice_is_stable_topk": sum(1 for v in stab if v),
+        "t0": sum(1 for i in idx if cases[i]["t"] == 0),
+        "padded": sum(1 for i in idx if cases[i]["width"] > len(cases[i]["nb"]) * (cases[i]["V"] + 1)),
+        "pruned": sum(1 for i in idx if cases[i]["width"] < len(cases[i]["nb"]) * (cases[i]["V"] + 1)),
+        "with_invalid_slot": sum(1 for i in idx if any(x == NEG for x in cases[i]["nb"] + cases[i]["b"])),
+        "merge_possible": sum(1 for i in idx if advance_nontrivial(dict(cases[i], width=10 ** 6)))}
+    chk.count("source_tie_cases", len(idx))
+    if bad:
+        i = bad[0]
+        chk.report({"case": cases[i], "impl": outs[i],
+                    "what": "the Python source of ctc_prefix_search_advance as translated to MiniPy and interpreted in Coq "
+                            "(PV.C05.SrcRun.src_advance, torch calls = PV.MiniTorch.OpsC05, topk = the observed choice) does not "
+                            "reproduce the implementation's output: translator / interpreter / ext05 / MiniTorch no longer "
+                            "describe the code",
+                    "disagreeing_cases": len(bad),
+                    "correspondence": "tie:C05:py2coq+MiniPy.Interp+MiniTorch:ctc_prefix_search_advance",
+                    "theorems_at_stake": SRC_THEOREMS}, no_failing_input=True)
+
+
+# ------------------------------------------------------------------------------------------
 # CTCPrefixSearch (regime T)
 # ------------------------------------------------------------------------------------------
 
@@ -1303,6 +1371,7 @@ def run(chk, cases=None):
     chk.extra["spec_rejections"] = len(sbad)
     chk.extra["direct_clause_failures"] = len(direct)
     chk.extra["model_terms"] = len(terms)
+    source_tie(chk, cases, outs)
     reported = 0
     concrete = False
     # 1. clauses checked directly on the implementation (NaN, order, distinctness, element alone)
